@@ -169,6 +169,11 @@ func (s *Sched) goroutineMain(g *Goroutine, body func()) {
 				}
 				s.finish("violation", "uncaught panic: "+x.msg+" at "+x.pos)
 			case engineAbort:
+				if x.kind == "bound" && e.cfg.HangIsViolation && strings.HasPrefix(x.reason, "step bound") {
+					e.recordViolation("hang", fmt.Sprintf("does not terminate within %d interpreted instructions", e.maxSteps), g.fr, nil)
+					s.finish("violation", "hang: "+x.reason+" at "+e.frPos(g.fr))
+					return
+				}
 				s.finish("abort:"+x.kind, x.reason+" at "+e.frPos(g.fr))
 			case pathEnd:
 				s.finish("ended", x.why)
